@@ -224,4 +224,10 @@ def tasks(tier):
           Task('free-names', t_free_names, extra=dict(x))]
     for step in (1, 3, 5, 15):
         ts.append(Task(f'fast.step{step}', t_fast(step), extra=dict(x), overrides=dict(ov)))
+    # the fast-simulator proofs above take the chunk length as a divisor of every route timeframe: that contract of
+    # _calculate_minimum_candle_step is discharged here as well (shared with C07): a longer chunk stores one symbol's minutes
+    # before another symbol's orders are matched
+    import props.C07 as P7
+    # the whole finite domain (2^17 - 1 sets of timeframes), concrete evaluation of the real function: complete
+    ts.append(Task('min-step.all-subsets', P7.t_min_step('all'), overrides=dict(ov), extra=dict(x, spec_mod=P7.SPEC, task_timeout_s=3600)))
     return ts
